@@ -412,7 +412,7 @@ def c19(ctx):
             if v["what"] in seen:
                 continue
             o = obs[v["id"]]
-            rp = dict(kind="generic", property="C19", cfg="FrontTrace_C19n.cfg", cmd="nav-check", input=gens[v["id"]])
+            rp = dict(kind="generic", property="C19", cfg="FrontTrace_C19n.cfg", cmd="nav-check", input=[g for g in gens if g["id"] == o["id"]][0])
             if rerun_generic(ctx, rp):
                 seen.add(v["what"])
                 pr = o["probes"][v["at"] - 1] if v.get("at") else None
